@@ -609,7 +609,14 @@ func c13case(r *vres.R, key string, stream []c13op, initial bool, hasInvalid boo
 		return res{s, pe, ae, pn}
 	}
 	rj, ry := run(jsonText), run(yamlText)
-	for enc, x := range map[string]res{"json": rj, "yaml": ry} {
+	results := map[string]res{"json": rj, "yaml": ry}
+	if !hasInvalid && len(stream) >= 2 {
+		// a YAML stream whose documents are written in JSON notation (jq -c ...; echo ---; jq -c ...),
+		// and one that starts with such a document and goes on in block style
+		results["yaml-of-json-documents"] = run(strings.Join(js, "\n---\n") + "\n")
+		results["json-document-then-yaml"] = run(js[0] + "\n---\n" + strings.Join(ys[1:], "---\n"))
+	}
+	for enc, x := range results {
 		if x.panicked != "" {
 			r.Violation("C13 panic encoding="+enc, key, x.panicked, nil)
 			r.Outcome("V:panic", true)
